@@ -264,6 +264,10 @@ impl Sim {
         }
     }
 
+    pub fn thread_enabled_pub(&self, u: usize) -> bool {
+        self.thread_enabled(u)
+    }
+
     fn thread_enabled(&self, u: usize) -> bool {
         let th = &self.threads[u];
         if self.poisoned.is_some() {
@@ -465,6 +469,10 @@ fn switch_to(me: u8, u: u8) {
         s.sched_switches += 1;
         (s.threads[me as usize].baton.clone(), s.threads[u as usize].baton.clone())
     };
+    if crate::api::DEBUG.load(Ordering::Relaxed) {
+        let st: Vec<String> = sim().threads.iter().map(|t| format!("{:?}", t.state)).collect();
+        crate::interpose::raw_write(2, format!("[switch] {} -> {} states={:?}\n", me, u, st).as_bytes());
+    }
     theirs.give();
     mine.take();
     let s = sim();
@@ -518,7 +526,7 @@ pub fn par_enter(t: u8, call: Call) {
             }
         }
     }
-    // pre-emption
+    // pre-emption by simulated processes / the environment
     let mut budget = preempt_budget(sim());
     while budget > 0 {
         budget -= 1;
@@ -526,17 +534,21 @@ pub fn par_enter(t: u8, call: Call) {
         if s.poisoned.is_some() {
             return;
         }
-        let en = s.enabled_others(Some(t));
+        let en: Vec<Ent> = s.enabled_others(Some(t)).into_iter().filter(|e| !matches!(e, Ent::Par(_))).collect();
         if en.is_empty() {
             break;
         }
         let e = en[s.ch.choose(en.len())];
-        match e {
-            Ent::Par(u) => {
-                s.threads[t as usize].state = TState::Runnable;
-                switch_to(t, u);
-            }
-            _ => s.step_entity(e),
+        s.step_entity(e);
+    }
+    // pre-emption by another parent thread: at most one hand-over per call
+    let s = sim();
+    if s.threads.len() > 1 && s.poisoned.is_none() {
+        let others: Vec<u8> = (0..s.threads.len() as u8).filter(|u| *u != t && s.thread_enabled_pub(*u as usize)).collect();
+        if !others.is_empty() && s.ch.choose(3) == 1 {
+            let u = others[s.ch.choose(others.len())];
+            s.threads[t as usize].state = TState::Runnable;
+            switch_to(t, u);
         }
     }
 }
@@ -575,6 +587,7 @@ pub fn sched_block(t: u8, wait: Wait, deadline: Option<u64>) -> Woke {
     let res;
     loop {
         let s = sim();
+        s.threads[t as usize].state = TState::Blocked;
         if s.poisoned.is_some() {
             res = Woke::Poisoned;
             break;
@@ -685,6 +698,10 @@ pub fn thread_exit(t: u8) {
         let e = en[s.ch.choose(en.len())];
         match e {
             Ent::Par(u) => {
+                if crate::api::DEBUG.load(Ordering::Relaxed) {
+                    let st: Vec<String> = s.threads.iter().map(|t| format!("{:?}", t.state)).collect();
+                    crate::interpose::raw_write(2, format!("[exit] {} -> {} states={:?}\n", t, u, st).as_bytes());
+                }
                 let b = s.threads[u as usize].baton.clone();
                 b.give();
                 return;
